@@ -261,7 +261,7 @@ func (v *randPolicy) TrailingComma() bool { return v.comma }
 func (v *randPolicy) Trim() bool          { return v.trim }
 
 func (p *c14) randProgram(i int) *Program {
-	g := &gen.ProgGen{R: gen.Rng(p.seed, "c14", i/8), Hostile: i%3 == 0, Vars: c02vars, SingleEntryHashes: true,
+	g := &gen.ProgGen{R: gen.Rng(p.seed, "c14", i/8), Hostile: i%3 == 0, Vars: c02vars, IterVars: c02IterVars, SingleEntryHashes: true,
 		Filters: []string{"wrap", "inc", "up", "ident", "b1"}, Funcs: []string{"fn", "num", "truth", "pair", "ident"}, Tests: []string{"pos", "eq", "divisible by", "empty"}}
 	ts, _ := g.Program()
 	ctx := map[string]interface{}{}
